@@ -38,7 +38,10 @@ def build(run):
     oc = cbuild.obj(run, os.path.join(vf.ROOT, "harness/c/c06_osmocon_harness.c"), "c06m_osmocon",
                     flags=flags + ['-DOSMOCON_C="%s"' % os.path.join(vf.REPO, "src/host/osmocon/osmocon.c")],
                     includes=oinc, compiler="clang")
-    exes["osmocon"] = cbuild.link(run, [oc, sc, msgb, talloc], "c06m_osmocon.bin", flags=SAN, compiler="clang")
+    # symbols of the libosmocore environment that the functions under test never call (main(), the tool sockets, the loaders
+    # may reference more of them after a change) must not keep the harness from linking
+    exes["osmocon"] = cbuild.link(run, [oc, sc, msgb, talloc], "c06m_osmocon.bin",
+                                  flags=SAN + ["-Wl,--unresolved-symbols=ignore-all"], compiler="clang")
     run.c06m_exe = exes
     return exes
 
